@@ -10,6 +10,7 @@
      set  <store> <off> <size> <cow> <index> <c> -> OK <id> <off> <size> <store0> <store1|->  | ERR kind
      sub  <store> <off> <size> <a> <b|_>       -> OK <size> <newstore> | ERR kind
      cat  <store> <off> <size> <store> <off> <size> -> OK <size> <newstore>
+     join <n> <sepstore|#> <off> <size> {<store> <off> <size>}*n  -> OK <size> <newstore>   (string-concatenate with separator)
      mk   <n> <c>                              -> OK <size> <newstore>
      hist <op>;<op>;...   ops:  S v i c | U v a b|_ | A v,v,.. | C v | M n c | L c,c,..
           -> one field per step separated by " | ":  "E" (both raised) or
@@ -57,7 +58,46 @@ let hist (ops : op list) : string =
        | Some _, None -> out := "DIFF spec-raised" :: !out)) ops;
   String.concat " | " (List.rev !out)
 
+(* port <s|f> <bufsize> <bytes> <sched|_> <op,op,...>: character I/O on a buffered input port (C12/PortModel.v) *)
+let rd_s = function RChar c -> "c" ^ hex_of_z c | REof -> "eof" | RBad -> "bad"
+let port_ops (p0 : iport) (ops : string list) : string =
+  let p = ref p0 and out = ref [] in
+  let emit x = out := x :: !out in
+  List.iter (fun o ->
+      if o = "r" then (let (r, p') = read_char !p in p := p'; emit (rd_s r))
+      else if o = "p" then (let (r, p') = peek_char !p in p := p'; emit (rd_s r))
+      else if o = "c" then emit "T"
+      else if o = "u" then (let (b, p') = read_byte !p in p := p'; emit (if hex_of_z b = "-1" then "eof" else "u" ^ hex_of_z b))
+      else if o = "l" then (let (r, p') = read_line (nat_of_int 8192) !p in p := p';
+                            emit (match r with None -> "eof" | Some l -> "l:" ^ string_of_zlist l))
+      else if o = "d" then begin
+          let acc = ref [] and go = ref true and fuel = ref 2000000 in
+          while !go && !fuel > 0 do
+            decr fuel;
+            let (r, p') = read_char !p in p := p';
+            (match r with RChar c -> acc := c :: !acc | REof -> go := false | RBad -> (go := false; acc := z_of_hex "-1" :: !acc))
+          done;
+          emit ("d:" ^ string_of_zlist (List.rev !acc)) end
+      else if String.length o > 1 && o.[0] = 's' then begin
+          let k = int_of_string ("0x" ^ String.sub o 1 (String.length o - 1)) in
+          if k = 0 then emit "s:_" else
+            let (l, p') = read_string (nat_of_int k) !p in p := p';
+            emit (if l = [] then "eof" else "s:" ^ string_of_zlist l) end
+      else emit "?") ops;
+  String.concat " | " (List.rev !out)
+
+(* wport <bufsize> <c,c,...> : write-char of each character to a fresh string output port -> the bytes of get-output-string *)
+let wport bufsize cs =
+  match write_chars (open_output_string (nat_s bufsize)) (zlist_of_string cs) with
+  | Ok o -> "OK " ^ string_of_zlist (out_bytes o) ^ " " ^ string_of_int (List.length o.ochunks)
+  | Err e -> "ERR " ^ err_s e
+
 let handle = function
+  | ["port"; kind; bufsize; bytes; sched; ops] ->
+     let b = zlist_of_string bytes and sc = List.map (fun z -> nat_of_int (int_of_string ("0x" ^ z))) (if sched = "_" then [] else String.split_on_char ',' sched) in
+     let p = if kind = "s" then open_string_port b else open_fd_port (nat_s bufsize) b sc in
+     port_ops p (String.split_on_char ',' ops)
+  | ["wport"; bufsize; cs] -> wport bufsize cs
   | ["leaf"; "ibc"; b] -> hex_of_z (sexp_utf8_initial_byte_count (z_of_hex b))
   | ["leaf"; "cbc"; c] -> hex_of_z (sexp_utf8_char_byte_count (z_of_hex c))
   | ["leaf"; "enc"; c] -> string_of_zlist (encode (z_of_hex c))
@@ -85,6 +125,19 @@ let handle = function
      let s1 = { sbytes = O; soff = nat_s off1; ssize = nat_s size1; scow = false }
      and s2 = { sbytes = S O; soff = nat_s off2; ssize = nat_s size2; scow = false } in
      let (h', s') = string_append h [s1; s2] in
+     Printf.sprintf "OK %s %s" (s_nat s'.ssize) (store_of h' (int_of_nat s'.sbytes))
+  | "join" :: k :: sst :: soff :: ssz :: rest ->
+     let sep_heap, sep = if sst = "#" then [], None
+                         else [zlist_of_string sst], Some { sbytes = O; soff = nat_s soff; ssize = nat_s ssz; scow = false } in
+     let rec go i acc_h acc_s = function
+       | st :: off :: size :: tl ->
+          go (i + 1) (zlist_of_string st :: acc_h)
+            ({ sbytes = nat_of_int i; soff = nat_s off; ssize = nat_s size; scow = false } :: acc_s) tl
+       | [] -> (List.rev acc_h, List.rev acc_s)
+       | _ -> failwith "bad join" in
+     let (hs, ss) = go (List.length sep_heap) [] [] rest in
+     ignore k;
+     let (h', s') = string_concatenate (sep_heap @ hs) ss sep in
      Printf.sprintf "OK %s %s" (s_nat s'.ssize) (store_of h' (int_of_nat s'.sbytes))
   | ["mk"; n; c] ->
      let (h', s') = make_string [] (nat_s n) (z_of_hex c) in
